@@ -10,7 +10,7 @@ import json
 import sys
 from concurrent.futures import ThreadPoolExecutor
 
-from common import (Build, MachineryError, Verdict, graph_paths, make_cfg,
+from common import (one_case, Build, MachineryError, Verdict, graph_paths, make_cfg,
                     run_children, run_tlc, seed, shard, split_behaviours,
                     NCPU)
 
@@ -126,7 +126,8 @@ def run_replay(build, v, cases):
                 m['impl'], m['what'], json.dumps(m['expected']),
                 json.dumps(m['got']),
                 json.dumps(m['ctx'], sort_keys=True)[:1500])
-            v.violation(sig, m)
+            v.violation(sig, m, one_case('replay_components.py', implv,
+                                         job, m))
     v.cov['traces_validated_against_impl'] += 2 * len(cases)
 
 
